@@ -65,6 +65,7 @@ pub struct WorldStats {
     pub cancel_with_wake_outstanding: u64,
     pub wake_after_cancel: u64,
     pub spurious_call_polls: u64,
+    pub fn_hang: u64,
 }
 
 pub struct Inner {
@@ -83,6 +84,8 @@ pub struct Inner {
     wakers: HashMap<u64, Waker>,
     fired: HashMap<u64, bool>,
     pub stats: WorldStats,
+    /// tasks that are parked in a call that will never complete (by plan)
+    pub hung_tasks: Vec<usize>,
 }
 
 pub struct World(Mutex<Inner>);
@@ -108,6 +111,7 @@ impl World {
             wakers: HashMap::new(),
             fired: HashMap::new(),
             stats: WorldStats::default(),
+            hung_tasks: Vec::new(),
         })))
     }
 
@@ -180,6 +184,10 @@ impl World {
 
     pub fn take_log(&self) -> Vec<Ev> {
         std::mem::take(&mut self.lock().log)
+    }
+
+    pub fn hung_tasks(&self) -> Vec<usize> {
+        self.lock().hung_tasks.clone()
     }
 
     pub fn stats(&self) -> WorldStats {
@@ -391,6 +399,18 @@ impl Future for ProbeCall {
                             w.log.push(Ev::Suspend { task: *task, inv: *inv, deferred: false });
                             drop(w);
                             cx.waker().wake_by_ref();
+                            return Poll::Pending;
+                        }
+                        Susp::Forever => {
+                            w.stats.fn_hang += 1;
+                            w.log.push(Ev::Suspend { task: *task, inv: *inv, deferred: true });
+                            w.wakers.insert(*inv, cx.waker().clone());
+                            let t = *task;
+                            if !w.hung_tasks.contains(&t) {
+                                w.hung_tasks.push(t);
+                            }
+                            // stay hung on every later poll as well
+                            susp.push_front(Susp::Forever);
                             return Poll::Pending;
                         }
                         Susp::Deferred(d) => {
